@@ -40,6 +40,8 @@ inductive Action where
   | once (id : Nat)
   /-- `aws_common_library_init` on the already initialised library (every dependent library issues one) -/
   | libInit
+  /-- `aws_thread_current_name`: reads the calling thread's name -/
+  | getName
   deriving DecidableEq, Repr, Inhabited
 
 inductive Status where
@@ -63,8 +65,9 @@ inductive Ev where
   | done (k : Nat)
   | cb (owner cb on : Nat)
   | joinRet (k by_ : Nat)     -- pthread_join on k returned to by_
-  | joinSkip (k by_ : Nat) (h : HState)  -- aws_thread_join on a handle that is not JOINABLE (state h): returns at once
-  | joinFail (k by_ err : Nat) -- pthread_join refused (EDEADLK 35: own thread; EINVAL 22: detached): error returned
+  | joinSkip (k by_ : Nat) (h : HState) (started : Bool)  -- aws_thread_join on a handle that is not JOINABLE (state h)
+  | joinFail (k by_ err : Nat) (started : Bool) -- pthread_join refused (EDEADLK 35: own thread; EINVAL 22: detached)
+  | name (t : Nat) (named : Bool)   -- aws_thread_current_name: the name given at launch, or the inherited default
   | count (by_ n : Nat)
   | joinAllBegin (by_ : Nat)
   | joinAllRet (by_ : Nat) (ok : Bool) (snap : List Nat)
@@ -109,6 +112,7 @@ inductive Instr where
   | jaRet (ok : Bool) (snap : List Nat)
   | pjaSwapPush
   | libInit
+  | logName
   deriving DecidableEq, Repr, Inhabited
 
 structure Th where
@@ -123,6 +127,7 @@ structure Th where
   wFunc : Nat := 0
   wArg : Nat := 0
   named : Bool := false        -- wrapper->name still attached (freed at the top of thread_fn)
+  hasName : Bool := false      -- the thread carries the launch name (applied at the top of thread_fn, or inherited from its creator)
   hoSeq : Nat := 0             -- ghost: position in the order in which managed threads handed themselves over
   copyId : Option Nat := none  -- wrapper->thread_copy.thread_id, written by the thread itself at the top of thread_fn
   rErr : Nat := 0
@@ -212,6 +217,7 @@ def expand (P : Prog) (s : State) (_t : Nat) : Action → List Instr
   | .sleep ns => [.sleepUntil (s.now + ns)]
   | .once id => [.onceCall id]
   | .libInit => [.libInit]
+  | .getName => [.logName]
 
 /-- code a managed thread runs after its at-exit chain: `aws_thread_pending_join_add` -/
 def handOverCode : List Instr := [.lock, .pjaSwapPush]
@@ -292,7 +298,8 @@ def exec (P : Prog) (s : State) (t : Nat) (i : Instr) (rest : List Instr) : Opti
     else if (s.th k).status ≠ .notCreated ∨ k = 0 ∨ P.n ≤ k ∨ t = k then
       some (cont { s0 with hstate := hfail } t { me with rErr := 22 } (after 22 ++ rest))
     else
-      let child : Th := { status := .created, ord := s.nextOrd, wFunc := k, wArg := k, named := nm }
+      -- a new pthread inherits the name of its creator until it sets its own
+      let child : Th := { status := .created, ord := s.nextOrd, wFunc := k, wArg := k, named := nm, hasName := me.hasName }
       let s1 := { s0 with th := upd s0.th k child, nextOrd := s.nextOrd + 1 }
       some (pushW (cont s1 t { me with rErr := 0 } (.createRet k :: .logLaunch k 0 :: rest))
         (wev s t "create" s!"t{s.nextOrd}" 0))
@@ -315,9 +322,9 @@ def exec (P : Prog) (s : State) (t : Nat) (i : Instr) (rest : List Instr) : Opti
     -- pthread_join from aws_thread_join.  A refused join (own thread: EDEADLK; detached thread: EINVAL) returns the
     -- error and leaves the handle's detach_state and everything else as it was
     if t = k then
-      some (pushW (pushLog (cont s t me rest) (.joinFail k t 35)) (wev s t "join" (tname s k) 35))
+      some (pushW (pushLog (cont s t me rest) (.joinFail k t 35 true)) (wev s t "join" (tname s k) 35))
     else if s.detachedS k = true then
-      some (pushW (pushLog (cont s t me rest) (.joinFail k t 22)) (wev s t "join" (tname s k) 22))
+      some (pushW (pushLog (cont s t me rest) (.joinFail k t 22 (decide (2 ≤ (s.th k).status.rank)))) (wev s t "join" (tname s k) 22))
     else if (s.th k).status = .exited then
       let s1 := { s with th := upd s.th k { s.th k with status := .joined }, hstate := upd s.hstate k .joinCompleted }
       some (pushW (pushLog (cont s1 t (s1.th t) rest) (.joinRet k t)) (wev s t "join" (tname s k) 0))
@@ -353,7 +360,8 @@ def exec (P : Prog) (s : State) (t : Nat) (i : Instr) (rest : List Instr) : Opti
   -- aws_common_library_init when s_common_library_initialized is already set: nothing happens; in particular the
   -- managed-thread count and the pending-join list are left alone
   | .libInit => some (cont s t me rest)
-  | .logJoin k => some (pushLog (cont s t me rest) (.joinSkip k t (s.hstate k)))
+  | .logName => some (pushLog (cont s t me rest) (.name t me.hasName))
+  | .logJoin k => some (pushLog (cont s t me rest) (.joinSkip k t (s.hstate k) (decide (2 ≤ (s.th k).status.rank))))
   | .readCount => some (cont s t { me with rVal := s.count } rest)
   | .logCount => some (pushLog (cont s t me rest) (.count t me.rVal))
   | .setTo ns => some (cont { s with timeoutNs := ns } t me rest)
@@ -385,7 +393,7 @@ def startStep (P : Prog) (s : State) (t : Nat) : State :=
   let me := s.th t
   -- top of thread_fn: store the own id into the wrapper's thread copy, apply and release the name
   pushW (pushLog { s with th := upd s.th t { me with status := .running, code := (P.body me.wFunc).map Instr.act,
-                                                      copyId := some t, named := false },
+                                                      copyId := some t, named := false, hasName := me.named || me.hasName },
                           wLive := s.wLive - me.named.toNat }
     (.run t me.wArg)) (wev s t "start" "-" 0)
 
